@@ -176,3 +176,33 @@ def check_zip_truncation(ctx: Ctx, rule: str, printer: str):
                 key = f"{printer}-printer::{g.name}.{mname}::zip::{norm(c)[:60]}"
                 ctx.check(not bad or strict, rule, key, "zip over sequences of equal length", f"{g.name}.{mname}: `{norm(c)}` pairs strided slices of one operand list; zip stops at the shorter one, so the unpaired last operand is silently dropped from the emitted expression", f.where(c))
     return seen
+
+
+def check_sign_printing(ctx: Ctx, rule: str):
+    """sign() cannot be written in a model; it enters generated code as the derivative of abs() in the linearisation
+    of the Rush-Larsen schemes.  It must be printed as a function that is 0 at 0 (sympy's convention, the value the
+    symbolic derivative stands for) in every backend."""
+    from . import util
+
+    M = model(ctx)
+    f = M.method("numpy", "_print_sign")
+    key = "numpy-printer::sign::value"
+    if f is None:
+        r = M.resolve("numpy", "sympy", "sign")
+        v = pm.vetted("numpy", r)
+        ctx.check(bool(v) and v.get("ok", False), rule, key, f"{r} (vetted)", f"numpy printer: sign falls through to {r}, which has not been vetted as value-preserving", "")
+    else:
+        t = util.printed_text(ctx, f)
+        p0 = f.params[1] if len(f.params) > 1 else "e"
+        if t is None:
+            ctx.undecided(rule, key, "what the numpy printer's _print_sign returns is not understood", f.where())
+        else:
+            wants = ["{self._module_format('numpy.sign')}({self._print(%s.args[0])})" % p0, "numpy.sign({self._print(%s.args[0])})" % p0]
+            ctx.check(t in wants, rule, key, "sign(x) -> numpy.sign(<x>)", f"numpy / jax printer: sign(x) is printed as `{t}`, not as numpy.sign(<printed x>): the value at x == 0 (0, the derivative of abs there by sympy's convention) or the argument is not preserved", f.where())
+    r = M.resolve("c", "sympy", "sign")
+    if r.is_gotranx:
+        t = util.printed_text(ctx, r.func)
+        ctx.check(t is not None and "> 0" in t and "< 0" in t, rule, "c-printer::sign::value", "sign(x) -> ((x > 0) - (x < 0))", f"C printer: sign(x) is printed as `{t}`, not as ((x) > 0) - ((x) < 0)", r.func.where())
+    else:
+        v = pm.vetted("c", r)
+        ctx.check(bool(v) and v.get("ok", False), rule, "c-printer::sign::value", f"{r} (vetted)", f"C printer: sign falls through to {r}, which has not been vetted as value-preserving", "")
